@@ -1,6 +1,7 @@
 package hdr
 
 import (
+	"fmt"
 	"math/big"
 	"sync"
 	"testing"
@@ -213,7 +214,7 @@ func TestProp_C01_concurrent(t *testing.T) {
 	})
 }
 
-const ruleLegacy = "legacy storage: a generated straight chain of 0..2300 headers (or 9999 / 10000 / 10001 / 12050, where the migrating Load also prunes) written as version-0 header files (version byte 0, 1000 x 80-byte headers per file starting with genesis; last file partial, full or exactly 1000; optionally a trailing header that does not link) or no files at all (empty storage); oracle: Load (migration) reports the chain's tip/height/accumulated work and the chain at every sampled height, accepts the next headers, and a Save followed by a Load in a fresh repository reports the same; non-trivial = chain crossing a 1000-header file boundary; distinct = (length class, boundary class)"
+const ruleLegacy = "legacy storage: a generated straight chain of 0..2300 headers (or 9999 / 10000 / 10001 / 12050, where the migrating Load also prunes) written as version-0 header files (version byte 0, 1000 x 80-byte headers per file starting with genesis; last file partial, full or exactly 1000; optionally a trailing header that does not link) or no files at all (empty storage); oracle: Load (migration) reports the chain's tip/height/accumulated work and the chain at every sampled height, accepts the next headers, keeps a lighter fork on a migrated header below the tip a side branch and lets a heavier one overtake with exactly parent work + own work (the accumulated work of every migrated header, not only the tip), and a Save followed by a Load in a fresh repository reports the same; non-trivial = chain crossing a 1000-header file boundary; distinct = (length class, boundary class)"
 
 func TestProp_C11_legacy(t *testing.T) {
 	col := evid.For("C11", "legacy", ruleLegacy)
@@ -284,6 +285,41 @@ func TestProp_C11_legacy(t *testing.T) {
 			}
 			raws = append(raws, raw)
 			work = new(big.Int).Add(work, model.BlockWork(raw.Bits))
+		}
+		// a fork of the migrated chain: one header on a migrated header below the tip has less
+		// cumulative work than the tip and must stay a side branch; a heavier one must overtake
+		// with exactly its parent's cumulative work plus its own (the migrated headers carry the
+		// right accumulated work, not only the tip)
+		upTo := n + more
+		if upTo >= 3 && rapid.Bool().Draw(t, "forkBelowTip") {
+			f := upTo - 2 - rapid.IntRange(0, min(100, upTo-3)).Draw(t, "forkDepth") // parent height, >= 1
+			if f < 1 {
+				f = 1
+			}
+			light := model.RawHeader{Version: 1, Prev: raws[f].Hash(), Timestamp: raws[f].Timestamp + 601, Bits: 0x1d00ffff, Nonce: 910001}
+			if err := repo.ProcessHeader(ctx, toWire(&light)); err != nil {
+				t.Fatalf("fork header on migrated header %d refused: %s", f, err)
+			}
+			check(repo, fmt.Sprintf("after a lighter fork header on migrated header %d", f), upTo, work)
+			if rapid.Bool().Draw(t, "heavyFork") {
+				heavy := model.RawHeader{Version: 1, Prev: raws[f].Hash(), Timestamp: raws[f].Timestamp + 602, Bits: 0x1800ffff, Nonce: 910002}
+				if err := repo.ProcessHeader(ctx, toWire(&heavy)); err != nil {
+					t.Fatalf("heavy fork header on migrated header %d refused: %s", f, err)
+				}
+				wf := model.BlockWork(mainGenesis.Bits)
+				for i := 1; i <= f; i++ {
+					wf = new(big.Int).Add(wf, model.BlockWork(raws[i].Bits))
+				}
+				wf = new(big.Int).Add(wf, model.BlockWork(heavy.Bits))
+				if wf.Cmp(work) > 0 {
+					if model.Hash(repo.LastHash()) != heavy.Hash() || repo.Height() != f+1 || repo.AccumulatedWork().Cmp(wf) != 0 {
+						t.Fatalf("heavier fork on migrated header %d: tip %s height %d work %s, expected the fork header at height %d with work %s", f, repo.LastHash(), repo.Height(), repo.AccumulatedWork().Text(16), f+1, wf.Text(16))
+					}
+					raws = append(raws[:f+1:f+1], heavy)
+					work = wf
+					n, more = f+1, 0
+				}
+			}
 		}
 		if err := repo.Save(ctx); err != nil {
 			t.Fatalf("Save after migration: %s", err)
